@@ -36,6 +36,41 @@ LoNonNil(e)      == SelectSeq(e, LAMBDA v : v # Nil)
 LoRange(q)       == {q[i] : i \in 1..Len(q)}
 
 (***************************************************************************)
+(* Text order (Stack.Less): token order = byte order of the UTF-8          *)
+(* encodings (UTF-8 is prefix free and order preserving, so comparing      *)
+(* token by token is comparing byte by byte).                              *)
+(***************************************************************************)
+TokOrder == <<"TAB", "SP", "!", "\"", "#", "$", "%", "&", "'", "(", ")", "*", "+", ",", "-", ".", "/",
+              "0", "1", "2", "3", "4", "5", "6", "7", "8", "9", ":", ";", "<", "=", ">", "?", "@",
+              "A", "B", "C", "D", "E", "F", "G", "H", "I", "J", "K", "L", "M", "N", "O", "P", "Q", "R", "S", "T", "U", "V", "W", "X", "Y", "Z",
+              "[", "\\", "]", "^", "_", "`",
+              "a", "b", "c", "d", "e", "f", "g", "h", "i", "j", "k", "l", "m", "n", "o", "p", "q", "r", "s", "t", "u", "v", "w", "x", "y", "z",
+              "{", "|", "}", "~", "U2", "U3", "U4">>
+TxRank(t) == CHOOSE i \in 1..Len(TokOrder) : TokOrder[i] = t
+
+RECURSIVE TxLess(_, _)
+TxLess(a, b) == IF b = <<>> THEN FALSE
+                ELSE IF a = <<>> THEN TRUE
+                ELSE IF Head(a) = Head(b) THEN TxLess(Tail(a), Tail(b))
+                ELSE TxRank(Head(a)) < TxRank(Head(b))
+
+\* the text the default Less sees for an abstract element value of the list model:
+\* a one-letter value is its own token; "v12" / "i3" are letter + decimal digits; a native nested Stack
+\* (class S, built as And().Push("in")) renders as "in"; an alias WITHOUT a String method (A, P) and an
+\* empty Stack (Z) have no text
+Digits == <<"0", "1", "2", "3", "4", "5", "6", "7", "8", "9">>
+RECURSIVE NumToks(_)
+NumToks(n) == IF n < 10 THEN <<Digits[n + 1]>> ELSE NumToks(n \div 10) \o <<Digits[(n % 10) + 1]>>
+Letters1 == {"a", "b", "c", "d", "e", "f", "g", "h", "k", "p", "q", "r", "s", "t", "u", "w", "x", "y", "z"}
+ValToks(v) ==
+  IF v \in Letters1 THEN <<v>>
+  ELSE IF v = "S" THEN <<"i", "n">>
+  ELSE IF v \in {"A", "P", "Z"} THEN <<>>
+  ELSE IF \E n \in 0..99 : v = "v" \o ToString(n) THEN <<"v">> \o NumToks(CHOOSE n \in 0..99 : v = "v" \o ToString(n))
+  ELSE IF \E n \in 0..99 : v = "i" \o ToString(n) THEN <<"i">> \o NumToks(CHOOSE n \in 0..99 : v = "i" \o ToString(n))
+  ELSE <<"?">>        \* no text defined for this value: instances that observe `less` use only the values above
+
+(***************************************************************************)
 (* Index translation: the only place where the negative / forward index    *)
 (* options matter.  A nil slot is "not found".                             *)
 (***************************************************************************)
@@ -117,6 +152,8 @@ DeadState ==
    id |-> "", cat |-> "", delim |-> "", sym |-> "", enc |-> <<>>,
    \* user closures (C14): validity policy none / approving / rejecting; the others installed or not
    vpol |-> "none", ppol |-> FALSE, epol |-> FALSE, upol |-> FALSE, mpol |-> FALSE,
+   \* comparison function (sort.Interface): FALSE = the built-in ordering, TRUE = a user closure
+   lpol |-> FALSE,
    \* log levels: a bit-set over 16 levels (bit numbers 1..16)
    lvl |-> {},
    \* auxiliary map: "none" (never set), "empty" (fresh map), "given" (the caller's map, by reference), "given0" (the caller's map, allocated but empty: by reference too);
@@ -214,6 +251,15 @@ ZeroRet(c) ==
     [] c.op = "Free"                                         -> <<"nil">>
     [] OTHER                                                 -> <<>>
 
+\* Stack.Less with the built-in ordering, on the CURRENT content: an addressed element that exists but has
+\* no text makes it false; an address that finds nothing counts as the empty text (before everything)
+LessL(s, i, j) ==
+  LET a == Lookup(s.e, s.opts, i)
+      b == Lookup(s.e, s.opts, j)
+      ta == IF a.ok THEN ValToks(a.v) ELSE <<>>
+      tb == IF b.ok THEN ValToks(b.v) ELSE <<>>
+  IN IF (a.ok /\ ta = <<>>) \/ (b.ok /\ tb = <<>>) THEN FALSE ELSE TxLess(ta, tb)
+
 StepLive(s, c) ==
   LET L == Len(s.e) IN
   CASE c.op = "Push" ->
@@ -290,6 +336,7 @@ StepLive(s, c) ==
     [] c.op = "SetEqualityPolicy" -> [s |-> [s EXCEPT !.epol = c.on], ret |-> <<>>]
     [] c.op = "SetUnmarshaler" -> [s |-> [s EXCEPT !.upol = c.on], ret |-> <<>>]
     [] c.op = "SetMarshaler" -> [s |-> [s EXCEPT !.mpol = c.on], ret |-> <<>>]
+    [] c.op = "SetLessFunc" -> [s |-> [s EXCEPT !.lpol = c.on], ret |-> <<>>]      \* no argument / nil: back to the built-in ordering
     [] c.op = "Marshal" /\ s.mpol -> Keep(s, <<"closure">>)        \* the installed Marshaler decides; nothing is pushed
     [] c.op = "Marshal" ->
          \* an initialised receiver gains the decoded Stack as ONE new element,
@@ -362,7 +409,7 @@ Obs(s) ==
      canmtx |-> "false", id |-> "unspecified", cat |-> "", delim |-> "", sym |-> "",
      enc |-> <<>>, isenc |-> "false", elems |-> <<>>, integ |-> "ok", locked |-> "false",
      valid |-> "err", strsrc |-> "empty", eqsrc |-> "none", umsrc |-> "none", loglevels |-> "",
-     aux |-> "none", logger |-> "none"]
+     aux |-> "none", logger |-> "none", less |-> <<"false", "false", "false">>]
   ELSE
     [init |-> "true", len |-> L, empty |-> B2S(L = 0),
      cap |-> IF s.cap > 0 THEN s.cap ELSE -1,
@@ -389,6 +436,10 @@ Obs(s) ==
                      THEN "empty" ELSE "builtin",
      eqsrc |-> IF s.epol THEN "closure" ELSE "builtin",
      umsrc |-> IF s.upol THEN "closure" ELSE "builtin",
-     loglevels |-> LvString(s.lvl), aux |-> s.aux, logger |-> s.logger]
+     loglevels |-> LvString(s.lvl), aux |-> s.aux, logger |-> s.logger,
+     \* Less(0,1), Less(1,0), Less(0,0): the user closure of the model answers i > j; the built-in ordering
+     \* always looks at the content as it is NOW
+     less |-> IF s.lpol THEN <<"false", "true", "false">>
+              ELSE <<B2S(LessL(s, 0, 1)), B2S(LessL(s, 1, 0)), B2S(LessL(s, 0, 0))>>]
 
 =============================================================================
